@@ -233,6 +233,22 @@ def scenario(env, api, src, data, idx):
                 lk = env.leaks()
                 if lk:
                     probs.append(('fd-leak', 'with TdmsFile.open(...) block left %r open' % (lk,)))
+                # the same object used as a context manager once more, then closed twice: none of it may raise or leave a handle
+                try:
+                    with tf:
+                        pass
+                except Exception as e:  # noqa
+                    if type(e).__name__ not in ('RuntimeError', 'ValueError'):
+                        probs.append(('close-raised', 'second with-block on the same object raised %s: %s' % (type(e).__name__, e)))
+                for k in (1, 2):
+                    try:
+                        tf.close()
+                    except Exception as e:  # noqa
+                        probs.append(('close-raised', 'close() number %d after the with-blocks raised %s: %s' % (k, type(e).__name__, e)))
+                        break
+                lk = env.leaks()
+                if lk:
+                    probs.append(('fd-leak', 'with-block entered twice left %r open' % (lk,)))
         elif api == 'with-open-raise':
             class Boom(Exception):
                 pass
@@ -298,6 +314,16 @@ def scenario(env, api, src, data, idx):
                 lk = env.leaks()
                 if lk:
                     probs.append(('fd-leak', 'close() left %r open (%d partly consumed chunk iterators are still referenced)' % (lk, len(held))))
+                # an iterator that was under way needs the file for its next chunk: it has to raise (or be exhausted), not deliver
+                for gi, g_ in enumerate(held):
+                    try:
+                        nxt = next(g_)
+                    except StopIteration:
+                        continue
+                    except Exception:  # noqa
+                        continue
+                    probs.append(('iterator-continues-after-close', 'chunk iterator %d (started before close()) delivered another chunk after close()' % gi))
+                    break
                 for i, (name, op) in enumerate(ops):
                     try:
                         got = op()
